@@ -126,7 +126,7 @@ func (f *frame) execBlock(b *ssa.BasicBlock, st *State) {
 			for i, r := range x.Results {
 				vals[i] = f.val(r)
 			}
-			f.rets = append(f.rets, retArrival{blk: b, vals: vals, st: st})
+			f.rets = append(f.rets, retArrival{blk: b, vals: vals, st: st, w: f.chain(b, f.fn.Blocks[0])})
 		case *ssa.Panic:
 			in.event(Event{Kind: "panic", Val: f.val(x.X)})
 			f.panicIf = bor(f.panicIf, in.curCond())
@@ -136,7 +136,7 @@ func (f *frame) execBlock(b *ssa.BasicBlock, st *State) {
 			v := f.val(x.Val)
 			in.storeVia(st, a, v)
 		case *ssa.MapUpdate:
-			in.event(Event{Kind: "mapupdate", Val: f.val(x.Value), Args: []Val{f.val(x.Map), f.val(x.Key)}})
+			in.mapUpdate(st, f.val(x.Map), f.val(x.Key), f.val(x.Value))
 		case *ssa.Defer, *ssa.Go, *ssa.Send, *ssa.Select:
 			in.fail("unsupported instruction %T", ins)
 			return
@@ -296,6 +296,9 @@ func (f *frame) evalValue(x ssa.Value, st *State) Val {
 				return v
 			}
 		}
+		if v := in.mapLookup(st, f.val(x.X), f.val(x.Index), x); v != nil {
+			return v
+		}
 		return in.opaqueNamed(x.Type(), "lookup", f.val(x.X), f.val(x.Index))
 	case *ssa.MakeInterface:
 		v := f.val(x.X)
@@ -321,7 +324,10 @@ func (f *frame) evalValue(x ssa.Value, st *State) Val {
 		}
 		return &SliceV{Obj: o, Lo: constInt(0, 64, true), Len: o.Len, Cap: cp, Elem: et}
 	case *ssa.MakeMap:
-		return &OpaqueV{Why: "map", T: x.Type()}
+		mt := x.Type().Underlying().(*types.Map)
+		o := in.newObj(fmt.Sprintf("map#%d", in.nobj+1), "map", mt.Elem(), false)
+		st.born[o] = true
+		return &MapV{Obj: o, Elem: mt.Elem()}
 	case *ssa.MakeChan:
 		in.fail("channels unsupported")
 		return nil
@@ -663,7 +669,7 @@ func (in *Interp) nilBit(v Val) Bit {
 			}
 		}
 		return U.B0
-	case *IfaceV, SymConst, *FuncV, *StrV:
+	case *IfaceV, SymConst, *FuncV, *StrV, *MapV:
 		return U.B0
 	case *MuxV:
 		return bmux(p.C, in.nilBit(p.T), in.nilBit(p.F))
@@ -839,4 +845,53 @@ func (in *Interp) binop(op token.Token, a, b Val, rt, ot types.Type) Val {
 		}
 	}
 	return in.opaque(rt, "binop "+op.String())
+}
+
+// constKey renders a constant map key, or "" if the key is not constant.
+func constKey(k Val) string {
+	switch x := k.(type) {
+	case *BV:
+		if v, ok := x.ConstVal(); ok {
+			return "k:" + v.String()
+		}
+	case *StrV:
+		if x.Const != nil {
+			return "k:" + *x.Const
+		}
+	}
+	return ""
+}
+
+func (in *Interp) mapUpdate(st *State, m, k, v Val) {
+	in.event(Event{Kind: "mapupdate", Val: v, Args: []Val{m, k}})
+	mv, ok := m.(*MapV)
+	if !ok {
+		return
+	}
+	key := constKey(k)
+	if key == "" {
+		in.havocObj(st, mv.Obj)
+		return
+	}
+	st.dirty[mv.Obj] = true
+	in.setCell(st, mv.Obj, key, v)
+}
+
+func (in *Interp) mapLookup(st *State, m, k Val, x *ssa.Lookup) Val {
+	mv, ok := m.(*MapV)
+	if !ok {
+		return nil
+	}
+	key := constKey(k)
+	if key == "" || st.havoc[mv.Obj] > 0 {
+		return nil
+	}
+	v, present := st.cells[mv.Obj][key]
+	if !present {
+		v = zeroVal(mv.Elem)
+	}
+	if x.CommaOk {
+		return &StructV{Fields: []Val{v, boolBV(bconst(present))}, T: x.Type()}
+	}
+	return v
 }
